@@ -291,6 +291,36 @@ pub fn build_scheme_builder(env: &Env) -> SchemeBuilder {
     b
 }
 
+/// The same scheme, built by a builder that has also REFUSED one redefinition of
+/// every registered field, function and list (same kind and other kind). A
+/// refused registration leaves the builder unchanged, so the scheme must behave
+/// exactly like `build_scheme(env)`.
+pub fn build_scheme_after_refusals(env: &Env) -> Result<Scheme, String> {
+    let mut b = build_scheme_builder(env);
+    for f in &env.fields {
+        if b.add_field(&f.name, wirefilter::Type::Bool).is_ok() || b.add_optional_field(&f.name, f.ty.to_engine()).is_ok() {
+            return Err(format!("field {} could be registered twice", f.name));
+        }
+        if b.add_function(&f.name, ConcatFunction::new()).is_ok() {
+            return Err(format!("function registered over field {}", f.name));
+        }
+    }
+    for f in &env.funcs {
+        if b.add_function(&f.name, ConcatFunction::new()).is_ok() || b.add_field(&f.name, wirefilter::Type::Int).is_ok() {
+            return Err(format!("name {} could be registered twice", f.name));
+        }
+    }
+    for (t, _) in &env.lists {
+        if b.add_list(t.to_engine(), HarnessList).is_ok()
+            || b.add_list(t.to_engine(), AlwaysList {}).is_ok()
+            || b.add_list(t.to_engine(), NeverList {}).is_ok()
+        {
+            return Err(format!("a second list for {} could be registered", t.short()));
+        }
+    }
+    Ok(b.build())
+}
+
 pub fn build_scheme(env: &Env) -> Scheme {
     build_scheme_builder(env).build()
 }
